@@ -10,7 +10,9 @@ import (
 	"context"
 	"crypto/sha256"
 	"fmt"
+	"runtime"
 	"sort"
+	"strings"
 	"time"
 
 	sdk "github.com/pokt-network/pocket-core/types"
@@ -291,7 +293,23 @@ type TmStub struct {
 	drv        *Driver
 }
 
+// ConsensusReactorStatus: the production EndBlock goroutine (which sleeps 2-5 s of real time and
+// then runs the auto claim/proof pass) always sees a syncing node here, so it never acts on its
+// own; the harness runs that pass itself at schedule-chosen points (N5). Other callers (relay
+// serving) see the configured state.
 func (t *TmStub) ConsensusReactorStatus() (*ctypes.ResultConsensusReactorStatus, error) {
+	pcs := make([]uintptr, 12)
+	n := runtime.Callers(2, pcs)
+	frames := runtime.CallersFrames(pcs[:n])
+	for {
+		f, more := frames.Next()
+		if strings.Contains(f.Function, "AppModule.EndBlock") {
+			return &ctypes.ResultConsensusReactorStatus{IsCatchingUp: true}, nil
+		}
+		if !more {
+			break
+		}
+	}
 	return &ctypes.ResultConsensusReactorStatus{IsCatchingUp: t.CatchingUp}, nil
 }
 
